@@ -317,10 +317,47 @@ def work_stl_tables(task):
     return ('stl-table', w, history, table)
 
 
+def work_big_table(task):
+    """a label table whose json is larger than every compression-dictionary threshold below 16 MiB (150 000 long macro-local labels),
+    written next to a version-3 .fjm with the heaviest lzma preset: it loads back complete, every label at its address."""
+    from fjv.enginecheck import scratch
+    from flipjump.assembler import assembler
+    from flipjump.fjm.fjm_consts import FJMVersion
+    from flipjump.fjm.fjm_writer import Writer
+    from flipjump.utils.functions import get_file_tuples, load_debugging_labels
+    from fjv.asm import quiet
+    _, w, preset, n = task
+    sieve = Sieve(PROP)
+    stats = {'programs': 1, 'labels': 0, 'instances': 0, 'breakpoint_queries': 0}
+    wd = scratch()
+    long_name = 'a_rather_long_local_label_name_that_makes_the_debug_table_grow_quickly'
+    src = wd / 'big.fj'
+    src.write_text(f'def m @ {long_name} {{\n  {long_name}:\n  ;\n}}\nrep({n}, i) m\n')
+    out, dbg = wd / 'big.fjm', wd / 'big.fjd'
+    case = {'w': w, 'preset': preset, 'labels': n, 'skeleton': None}
+    try:
+        with quiet():
+            assembler.assemble(get_file_tuples([str(src)], no_stl=True), w, Writer(out, w, FJMVersion(3), lzma_preset=preset), debugging_file_path=dbg, print_time=False)
+        table = load_debugging_labels(dbg)
+    except Exception as e:  # noqa
+        sieve.add({'kind': 'a big label table does not survive the save / load round trip', 'class': 'big table', 'case': case, 'expected': f'{n} labels',
+                   'observed': f'{type(e).__name__}: {str(e)[:120]}', 'summary': f'w={w} preset={preset}: the table of {n} labels cannot be written / loaded: {type(e).__name__}'})
+        return stats, sieve.result(), None
+    stats['labels'] = len(table)
+    mine = sorted(a for nm, a in table.items() if nm.endswith(long_name))
+    if mine != [i * 2 * w for i in range(n)]:
+        sieve.add({'kind': 'a big label table does not survive the save / load round trip', 'class': 'big table', 'case': case, 'expected': f'{n} labels at 0, 2w, 4w, ...',
+                   'observed': f'{len(mine)} labels, first {mine[:3]}', 'summary': f'w={w} preset={preset}: {len(mine)} of {n} labels came back'})
+    stats['instances'] = len(mine)
+    return stats, sieve.result(), None
+
+
 def work(task):
     from fjv.enginecheck import scratch
     from fjv import gen_macros
     kind = task[0]
+    if kind == 'big-table':
+        return work_big_table(task)
     if kind == 'stl-tables':
         return work_stl_tables(task)
     if kind == 'histories':
@@ -405,6 +442,7 @@ def main():
     hist_depth = 5 if args.tier == 'thorough' else 4
     tasks += [('histories', hist_depth, f) for f in range(len(HIST_OPS)) if HIST_OPS[f][0] not in ('load', 'handler')]
     total, samples = {}, []
+    tasks = [('big-table', 64, 9, 150000)] + ([('big-table', 32, 7, 150000)] if args.tier == 'thorough' else []) + tasks
     stl_widths = (64, 32) if args.tier == 'thorough' else (64,)
     hist_len = 3 if args.tier == 'thorough' else 2
     for w in stl_widths:
